@@ -195,19 +195,21 @@ func (l *orderColumnsRow) compare(tp Type, lval, rval Column, reverse bool) int 
 	}
 }
 
-func (l *orderColumnsRow) compareBytes(lval, rval Column, reverse bool) int {
-	var (
-		lbval []byte
-		rbval []byte
-	)
-	switch lval.(type) {
+// orderBytes returns the bytes of a text column value.
+func orderBytes(val Column) ([]byte, bool) {
+	switch v := val.(type) {
 	case []byte:
-		lbval = lval.([]byte)
-		rbval = rval.([]byte)
+		return v, true
 	case string:
-		lbval = []byte(lval.(string))
-		rbval = []byte(rval.(string))
-	default:
+		return []byte(v), true
+	}
+	return nil, false
+}
+
+func (l *orderColumnsRow) compareBytes(lval, rval Column, reverse bool) int {
+	lbval, lok := orderBytes(lval)
+	rbval, rok := orderBytes(rval)
+	if !lok || !rok {
 		return 0
 	}
 	if reverse {
@@ -216,22 +218,23 @@ func (l *orderColumnsRow) compareBytes(lval, rval Column, reverse bool) int {
 	return bytes.Compare(lbval, rbval)
 }
 
-func (l *orderColumnsRow) compareBool(lval, rval Column, reverse bool) int {
-	var (
-		lbool bool
-		rbool bool
-	)
-	switch lval.(type) {
+// orderBool returns the Boolean of a column value (text: "true" is true).
+func orderBool(val Column) (bool, bool) {
+	switch v := val.(type) {
 	case bool:
-		lbool = lval.(bool)
-		rbool = rval.(bool)
+		return v, true
 	case string:
-		lbool = lval.(string) == "true"
-		rbool = rval.(string) == "true"
+		return v == "true", true
 	case []byte:
-		lbool = bytes.Equal(lval.([]byte), []byte("true"))
-		rbool = bytes.Equal(rval.([]byte), []byte("true"))
-	default:
+		return bytes.Equal(v, []byte("true")), true
+	}
+	return false, false
+}
+
+func (l *orderColumnsRow) compareBool(lval, rval Column, reverse bool) int {
+	lbool, lok := orderBool(lval)
+	rbool, rok := orderBool(rval)
+	if !lok || !rok {
 		return 0
 	}
 	lint := 0
